@@ -95,6 +95,8 @@ def check_case(case):
   build_recipe(qt, case['steps'])
   recipe = qt.get_quantization_recipe()
   labels = ['rules=%d' % min(len(recipe), 6)]
+  if any((e.get('op_config', {}).get('weight_tensor_config') or {}).get('block_size') for e in _norm(recipe)):
+    labels.append('blockwise_block_size>0')
   if not recipe:
     return core.result(False, labels)
   try:
